@@ -599,7 +599,7 @@ fn main() {
     c.sample(json!({"parser": "DateTime::parse", "input": "2024-02-29 12:34:56.789000000", "unit": "ms", "model": 1709210096789i64}));
     total.merge(c);
     let meta = Meta {
-        rule: "(a) every string of length 0..=L over the 14-character token alphabet plus overflow probes through TimeDelta::parse: a value or an error, never a panic; (b) well-formed duration words (all sequences of 1..3 signed terms over numbers {0,1,7,12,1000} x ten units, unit sequences of length 4..6 with position-determined numbers and alternating signs): months / nanoseconds equal the i128 sum of the terms, Err only on overflow; (c) every string of length <= Ld over a 12-character alphabet through DateTime::parse (default and explicit, also malformed, formats), every lattice instant written with strftime(None) and each of the 11 listed formats and parsed back at all four units (incl. pre-epoch), every single-character edit (delete / insert / substitute) of those texts for totality; (d) the same for Time::parse. Non-trivial = distinct input strings / instants. Also (DESIGN 5.15, 5.16): 16 caller-made formats written by strftime(Some(fmt)) and parsed back with the same format (datetime-caller-formats; the calendar library decides what the pair denotes); the edges of the nanosecond range among the instants. Round 9 (DESIGN 5.18): every single-character edit (delete / insert / substitute, characters of 1, 2, 3 and 4 bytes) of well-formed time-of-day texts with fractions of 0..12 digits (time-edits) and of well-formed duration texts (timedelta-edits); the date-time edits insert 3- and 4-byte characters too.".into(),
+        rule: "(a) every string of length 0..=L over the 14-character token alphabet plus overflow probes through TimeDelta::parse: a value or an error, never a panic; (b) well-formed duration words (all sequences of 1..3 signed terms over numbers {0,1,7,12,1000} x ten units, unit sequences of length 4..6 with position-determined numbers and alternating signs): months / nanoseconds equal the i128 sum of the terms, Err only on overflow; (c) every string of length <= Ld over a 12-character alphabet through DateTime::parse (default and explicit, also malformed, formats), every lattice instant written with strftime(None) and each of the 11 listed formats and parsed back at all four units (incl. pre-epoch), every single-character edit (delete / insert / substitute) of those texts for totality; (d) the same for Time::parse. Non-trivial = distinct input strings / instants. Also (DESIGN 5.15, 5.16): 16 caller-made formats written by strftime(Some(fmt)) and parsed back with the same format (datetime-caller-formats; the calendar library decides what the pair denotes); the edges of the nanosecond range among the instants. Round 9 (DESIGN 5.18): every single-character edit (delete / insert / substitute, characters of 1, 2, 3 and 4 bytes) of well-formed time-of-day texts with fractions of 0..12 digits (time-edits) and of well-formed duration texts (timedelta-edits); the date-time edits insert 3- and 4-byte characters too. Round 10 (DESIGN 5.19): datetime-far-years - years -262143 .. 262142 (signed and five / six digit years) in the units s, ms, us through the default formatter and parser.".into(),
         bounds: json!({"timedelta_totality_len": td_len, "datetime_totality_len": dt_len, "instants": inst.len(), "instants_with_all_single_edits": n_edit, "formats": FORMATS}),
         assumptions: vec!["lenient but total parses (\"\", \"5\", \"1d2\", \"d\") are accepted: the property only forbids panics and wrong values for well-formed words (DESIGN 5.6)".into(), "chrono is the oracle for calendar values".into()],
         exhaustive: true,
